@@ -318,6 +318,10 @@ var govcFamiliesExt = []govcFamily{
 	{"file-suffix-p", func(k int) string { return fmt.Sprintf("http://example.com/news/article_p%d.html", k) }},
 	{"file-number-html", func(k int) string { return fmt.Sprintf("http://example.com/news/fox/%d.html", k) }},
 	{"file-suffix-noext", func(k int) string { return fmt.Sprintf("http://example.com/news/article-%d", k) }},
+	// percent-escaped non-ASCII letters before the page number (the decoded path is longer in bytes than in characters)
+	{"path-nonascii", func(k int) string { return fmt.Sprintf("http://example.com/actualit%%C3%%A9s/caf%%C3%%A9/page/%d", k) }},
+	{"file-suffix-nonascii", func(k int) string { return fmt.Sprintf("http://example.com/caf%%C3%%A9/article-%d.html", k) }},
+	{"query-nonascii", func(k int) string { return fmt.Sprintf("http://example.com/caf%%C3%%A9/article?page=%d", k) }},
 }
 
 // markups around the Prev/Next anchors: with and without a page-ish class name
@@ -377,7 +381,28 @@ func govcC17RunQuiet(src, pageURL string, algo PaginationAlgo) (next, prev strin
 	if err != nil {
 		return "", "", false
 	}
-	return res.PaginationInfo.NextPage, res.PaginationInfo.PrevPage, true
+	return govcC17Escaped(res.PaginationInfo.NextPage), govcC17Escaped(res.PaginationInfo.PrevPage), true
+}
+
+// govcC17Escaped: the prev/next algorithm reports links in unescaped (IRI) form, the page-number algorithm in
+// percent-escaped form; both denote the same URL. A reported link that contains non-ASCII bytes is compared in
+// its percent-escaped form (nothing else is changed; ASCII-only links are compared as they are).
+func govcC17Escaped(link string) string {
+	ascii := true
+	for i := 0; i < len(link); i++ {
+		if link[i] >= 0x80 {
+			ascii = false
+		}
+	}
+	if ascii {
+		return link
+	}
+	u, err := nurl.Parse(link)
+	if err != nil {
+		return link
+	}
+	u.RawPath = ""
+	return u.String()
 }
 
 func (u *govcC17Unit) run() {
@@ -629,7 +654,7 @@ func (u *govcC17Unit) runInContainer() {
 func TestGovcConventionalPagerReplay(t *testing.T) {
 	evals, nontrivial := 0, 0
 	defer func() {
-		fmt.Printf("GOVC-CASES evaluations=%d distinct_nontrivial=%d rule=%s\n", evals, nontrivial, "every (URL family, N in 2..12, k in 1..N) x {numbered pager with PageNumber, Prev/Next and Previous/Next anchors with PrevNext in 3 wrappers (first 8 families) or 2 wrappers (23 further families: single path component with short/long fixed part or bare number, number followed by more components, query at the root/dir/script path and other parameter names, htm/php/no extension)}; distinct by construction; non-trivial = a non-empty link is expected and was compared; plus the CONTAINER of the pager: "+fmt.Sprint(len(govcC17Containers()))+" containers (bare; each of 22 negative-looking words (sidebar, footer, media, comments, toolbar, widget, meta, sponsor, combx, contact, masthead, share, com-, foot, footnote, outbrain, promo, related, shoutbox, shopping, tags, tool) as class of the pager's parent, the first 8 also as class of the grandparent, inside a theme class of <body>, as id of parent and grandparent; 10 positive-looking words (article, body, content, pagination, entry, main, post, story, pager, paging) on parent, 4 of them on grandparent and <body>; 5 combinations of negatives on several levels; 8 mixtures of negative and positive words) x 5 URL families (query, path with trailing slash, file-name suffix, short single path component, number inside the path) x 7 (N,k) points (N=3: k=1,2,3; N=8: k=1,2,5,8) x {numbered pager inline and as ul/li with PageNumber (keys number-container/...), Prev/Next and Previous/Next anchors with PrevNext (keys prevnext-container/...; prevnext-negcontainer-weakurl/... = negative-only ancestor, no page-ish ancestor, URL family without paging evidence)}")
+		fmt.Printf("GOVC-CASES evaluations=%d distinct_nontrivial=%d rule=%s\n", evals, nontrivial, "every (URL family, N in 2..12, k in 1..N) x {numbered pager with PageNumber, Prev/Next and Previous/Next anchors with PrevNext in 3 wrappers (first 8 families) or 2 wrappers (26 further families: percent-escaped non-ASCII letters in the path before a path-component, file-suffix and query number, single path component with short/long fixed part or bare number, number followed by more components, query at the root/dir/script path and other parameter names, htm/php/no extension)}; distinct by construction; non-trivial = a non-empty link is expected and was compared; plus the CONTAINER of the pager: "+fmt.Sprint(len(govcC17Containers()))+" containers (bare; each of 22 negative-looking words (sidebar, footer, media, comments, toolbar, widget, meta, sponsor, combx, contact, masthead, share, com-, foot, footnote, outbrain, promo, related, shoutbox, shopping, tags, tool) as class of the pager's parent, the first 8 also as class of the grandparent, inside a theme class of <body>, as id of parent and grandparent; 10 positive-looking words (article, body, content, pagination, entry, main, post, story, pager, paging) on parent, 4 of them on grandparent and <body>; 5 combinations of negatives on several levels; 8 mixtures of negative and positive words) x 5 URL families (query, path with trailing slash, file-name suffix, short single path component, number inside the path) x 7 (N,k) points (N=3: k=1,2,3; N=8: k=1,2,5,8) x {numbered pager inline and as ul/li with PageNumber (keys number-container/...), Prev/Next and Previous/Next anchors with PrevNext (keys prevnext-container/...; prevnext-negcontainer-weakurl/... = negative-only ancestor, no page-ish ancestor, URL family without paging evidence)}")
 	}()
 	var units []*govcC17Unit
 	families := append(append([]govcFamily{}, govcFamilies...), govcFamiliesExt...)
